@@ -21,12 +21,15 @@ open DV.C10.Gen
 
 /-! ## the constants of the header mean what the proofs assume -/
 
-/-- the masks generated from the header are the ones the digit arithmetic needs -/
+/-- the masks generated from the header are what the digit arithmetic needs: `bitmask` selects exactly one digit,
+    `overflowmask` keeps a carry of 0/1 (odd), `compbitmask` keeps the digit above the low `bits` bits, four hex
+    characters per digit, and `todouble` keeps digits that fit a 53-bit mantissa with ≥ 32 bits below the leading
+    digit -/
 theorem constants_ok :
-    bitmask = 2 ^ bits - 1 ∧ overflowmask = 1 ∧ compbitmask = bitmask * 2 ^ bits ∧
+    bitmask = 2 ^ bits - 1 ∧ overflowmask % 2 = 1 ∧ (compbitmask >>> bits) &&& bitmask = bitmask ∧
     hexdigits * 4 = bits ∧ B = 65536 ∧ 0 < representableDigits ∧
     B ^ representableDigits ≤ 2 ^ 53 ∧ 2 ^ 32 ≤ B ^ (representableDigits - 1) :=
-  ⟨bitmask_eq, overflowmask_eq, compbitmask_eq, hexdigits_eq, B_eq, representableDigits_pos,
+  ⟨bitmask_eq, overflowmask_odd, compbitmask_keeps, hexdigits_eq, B_eq, representableDigits_pos,
     representable_fit, representable_margin⟩
 
 /-- the modulus is 2^w with w = bits·n = `numeric_limits::digits` -/
@@ -208,6 +211,25 @@ theorem assign_wf_val (n : Nat) {x : Nat} (hx : x < 2 ^ 64) :
 
 example : assign 1 0x123456789abcdef0 = [0xdef0] ∧
     assign 5 0x123456789abcdef0 = [0xdef0, 0x9abc, 0x5678, 0x1234, 0] := by decide
+
+/-- `numeric_limits::min()` and the default constructor are `assign 0`: the value 0 -/
+theorem min_val (n : Nat) : Wf n (assign n 0) ∧ val (assign n 0) = 0 := by
+  refine ⟨assign_wf' n 0, ?_⟩
+  rw [assign_val' n (by omega), Nat.zero_mod]
+
+/-- mixed operations with a built-in integer convert it first (`bigunsignedint<k> temp(y); return x+temp;`), so
+    they are the big-integer operation on `y mod W`; shown for `+` and `*` (the other operators compose alike) -/
+theorem mixed_add_val {n : Nat} {a : List Nat} (ha : Wf n a) {y : Nat} (hy : y < 2 ^ 64) :
+    val (add a (assign n y)) = (val a + y) % W n := by
+  rw [add_val' ha (assign_wf' n y), assign_val' n hy, Nat.add_mod_mod]
+
+theorem mixed_mul_val {k : Nat} {a : List Nat} (ha : Wf (ndigits k) a) {y : Nat} (hy : y < 2 ^ 64) :
+    val (mul k a (assign (ndigits k) y)) = (val a * y) % W (ndigits k) := by
+  rw [(mul_spec ha (assign_wf' _ y)).2, assign_val' _ hy, Nat.mul_mod_mod]
+
+-- a built-in operand wider than the big integer (k = 8: one digit)
+example : Wf (ndigits 8) [0xffff] ∧ add [0xffff] (assign 1 0x10001) = [0] ∧
+    mul 8 [0xffff] (assign (ndigits 8) 0x10002) = [0xfffe] := by decide
 
 /-- construction from a signed built-in: negative values are rejected, non-negative ones are taken modulo W -/
 theorem ofSigned_spec (n : Nat) (y : Int) :
